@@ -89,6 +89,18 @@ fn main() {
             j.put("failures", J::Arr(sr.viols.iter().map(|v| J::obj().set("property", J::s(v.prop)).set("signature", J::s(&v.sig)).set("message", J::s(&v.msg)).set("kind", J::s("sharedref"))).collect()));
             emit(&args, j);
         }
+        "churn" | "hashscale" | "interleave" | "realheap" => {
+            let mut out = engine::RunOut::new();
+            let seed = args.u64("seed", 0);
+            match args.cmd.as_str() {
+                "churn" => scale::run_churn(seed, args.u64("ops", 1_000_000), &mut out),
+                "hashscale" => scale::run_hashscale(seed, args.u64("rounds", 2000), &mut out),
+                "interleave" => scale::run_interleave(seed, args.u64("events", 100_000), &mut out),
+                _ => scale::run_realheap(seed, args.u64("events", 100_000), &mut out),
+            }
+            emit(&args, stats_json(&out).set("cmd", J::s(&args.cmd)));
+        }
+        "noop" => { println!("ok"); }
         "selfcheck" => {
             // used by the driver to build (and smoke-test) a mode
             let mut out = engine::RunOut::new();
